@@ -17,6 +17,10 @@ type SizeCase struct {
 	Value   int  `json:"value"`             // length of the incompressible header value
 	Prio    bool `json:"prio,omitempty"`    // HEADERS carries a priority section
 	Trail   bool `json:"trail,omitempty"`   // followed by a small second block (continuity of the stream)
+	// SenderMax: what the SENDER of the block announces as its own SETTINGS_MAX_FRAME_SIZE (0:
+	// nothing). It says what the sender is prepared to receive and must not change what the
+	// receiver gets.
+	SenderMax int `json:"sender_max,omitempty"`
 }
 
 func runSize(c SizeCase) kit.Verdict {
@@ -36,7 +40,11 @@ func runSize(c SizeCase) kit.Verdict {
 	} else {
 		R.WriteSettings()
 	}
-	S.WriteSettings()
+	if c.SenderMax > 0 {
+		S.WriteSettings(h2kit.Setting{ID: 5, Val: uint32(c.SenderMax)})
+	} else {
+		S.WriteSettings()
+	}
 	ok := S.Wait(bound, func(r *h2kit.Rec) bool { return (len(r.Settings) >= 1 && r.Acks >= 1) || r.Done }) &&
 		R.Wait(bound, func(r *h2kit.Rec) bool { return (len(r.Settings) >= 1 && r.Acks >= 1) || r.Done })
 	if !ok {
@@ -79,6 +87,9 @@ func runSize(c SizeCase) kit.Verdict {
 			if c.Prio {
 				shape = "headers-with-priority"
 			}
+			if c.SenderMax > 0 {
+				shape += "+sender-allows-larger-frames"
+			}
 			v.Addf("C09/frame-size/"+shape+"/"+vi.Kind, "receiver announced %d: %s", R.AdvertisedMaxFrameLocked(), vi.Detail)
 		}
 		evs := r.Streams[1]
@@ -108,6 +119,9 @@ var propFrameSize = &kit.Prop[SizeCase]{
 		if c.Max > 16384 {
 			out = append(out, "raised-max-frame-size")
 		}
+		if c.SenderMax > 0 {
+			out = append(out, "asymmetric-max-frame-size")
+		}
 		return out
 	},
 }
@@ -117,6 +131,23 @@ func TestFrameSize(t *testing.T) {
 		t.Skip("sequential enumeration")
 	}
 	propFrameSize.Enumerate(t, func(yield func(SizeCase) bool) {
+		// asymmetric limits: the sender of the block takes frames of 1 MiB itself, the receiver
+		// keeps the default (or 20 000)
+		for _, max := range []int{0, 20000} {
+			eff := max
+			if eff == 0 {
+				eff = 16384
+			}
+			for _, value := range []int{eff - 100, eff + 1, 40000, 100000} {
+				for _, prio := range []bool{false, true} {
+					for _, rev := range []bool{false, true} {
+						if !yield(SizeCase{Max: max, SenderMax: 1 << 20, Value: value, Prio: prio, Reverse: rev, Trail: value == 40000}) {
+							return
+						}
+					}
+				}
+			}
+		}
 		for _, max := range []int{0, 16384, 20000} {
 			eff := max
 			if eff == 0 {
